@@ -105,25 +105,26 @@ def compileGate (pi : α) (ev : Ang → α) (N : Nat) (P : Params α) (g : Gate)
   | some .noop => .ok .nothing
   | some .idle => .ok (.instr ⟨g, none, Arith.ofFrac 0 1, ev g.arg⟩)
 
-/-- the gate loop of `GateCompiler.compile`: instructions in order and the accumulated global phase -/
-def compileLoop (pi : α) (ev : Ang → α) (N : Nat) (P : Params α) :
+/-- the gate loop of `GateCompiler.compile`: instructions in order and the accumulated global phase.
+`drop`: instructions with `ins.duration == 0` are not kept (the source after fixes/C06-2.patch). -/
+def compileLoop (drop : Bool) (pi : α) (ev : Ang → α) (N : Nat) (P : Params α) :
     List Gate → α → Except Err (List (Instr α) × α)
   | [], ph => .ok ([], ph)
   | g :: gs, ph =>
     match compileGate pi ev N P g with
     | .error e => .error e
     | .ok (.instr i) =>
-      match compileLoop pi ev N P gs ph with
+      match compileLoop drop pi ev N P gs ph with
       | .error e => .error e
-      | .ok (is, ph') => .ok (i :: is, ph')
-    | .ok (.phase θ) => compileLoop pi ev N P gs (Arith.add ph θ)
-    | .ok .nothing => compileLoop pi ev N P gs ph
+      | .ok (is, ph') => if drop && Arith.isZero i.dur then .ok (is, ph') else .ok (i :: is, ph')
+    | .ok (.phase θ) => compileLoop drop pi ev N P gs (Arith.add ph θ)
+    | .ok .nothing => compileLoop drop pi ev N P gs ph
 
 /-- instructions and `compiler.global_phase` after `compile(gates)`; `phase0` is the value the compiler
 object carried before the call (it only matters if `compile` does not reset it) -/
 def compile (pi : α) (ev : Ang → α) (N : Nat) (P : Params α) (phase0 : α) (gs : List Gate) :
     Except Err (List (Instr α) × α) :=
-  compileLoop pi ev N P gs (if compileResetsPhase then Arith.ofFrac 0 1 else phase0)
+  compileLoop dropsZeroDuration pi ev N P gs (if compileResetsPhase then Arith.ofFrac 0 1 else phase0)
 
 /-- `processor.global_phase` after `SpinChain.load_circuit` (`old`: its value before the call) -/
 def reportedPhase (old compilerPhase : α) : α := if handsBackPhase then compilerPhase else old
@@ -168,13 +169,14 @@ def labelsOk (circular : Bool) (N : Nat) (is : List (Instr α)) : Bool :=
     | none => true
     | some (pre, n) => (control? circular N pre n).isSome
 
-/-- `compile` + the checks of `load_circuit` that follow it: `(None, None)` ⇒ ValueError, unknown label ⇒ KeyError -/
+/-- `compile` + what `load_circuit` does with the result: `(None, None)` ⇒ ValueError (or, after
+fixes/C06-1.patch, no pulse at all), unknown label ⇒ KeyError -/
 def load (pi : α) (ev : Ang → α) (circular : Bool) (N : Nat) (P : Params α) (phase0 : α) (gs : List Gate) :
     Except Err (List (Instr α) × α) :=
   match compile pi ev N P phase0 gs with
   | .error e => .error e
   | .ok (is, ph) =>
-    if is.isEmpty then .error .noPulse
+    if is.isEmpty then (if loadsEmpty then .ok (is, ph) else .error .noPulse)
     else if labelsOk circular N is then .ok (is, ph) else .error .key
 
 /-- the coupling label connects exactly the two given qubits -/
@@ -201,6 +203,7 @@ instance : Arith Rat where
   abs := absQ
   sign := signQ
   ofFrac := fun n d => (n : Rat) / (d : Rat)
+  isZero := fun x => x == 0
 
 /-- a fixed angle `p8·π/8` in units of π (`none`: symbolic angle) -/
 def angPi (a : Ang) : Option Rat := if a.isFixed then some ((a.p8 : Rat) / 8) else none
